@@ -323,8 +323,10 @@ func init() {
 	}
 	suites["reader"] = suite{gen: func(r *rand.Rand, n int, emit func(string)) {
 		// fixed witnesses first
-		emit("rd.stream 4 4 3003000161")            // F28: 5-byte PUBLISH accepted with MaximumPacketSize 4
-		emit("rd.stream 4 4 30838080000001" + "61") // 8 = 4+4 bytes accepted (padded length bytes)
+		emit("rd.stream 4 4 3003000161")            // 5-byte PUBLISH, MaximumPacketSize 4: refused (the former F28 witness: it was accepted)
+		emit("rd.stream 4 5 3003000161")            // a packet of exactly the maximum is accepted
+		emit("rd.stream 4 4 30838080000001" + "61") // 8 bytes (padded length bytes), maximum 4: refused (formerly accepted)
+		emit("rd.stream 4 8 30838080000001" + "61") // … and accepted with maximum 8
 		emit("rd.stream 4 4 3004")                  // refused before any body byte arrived
 		emit("rd.stream 4 4 300400016161")          // refused, body present
 		emit("rd.stream 4 0 30ffffff7f")            // no limit: header accepted, body awaited
